@@ -31,6 +31,9 @@ def nVars : Nat := 8
 structure St where
   ma : Array (CIDict K V) := Array.replicate nCells CIDict.empty
   sa : Array (SMap K V) := Array.replicate nCells []
+  /-- second admissible reading, per VARIABLE: `replace(other)` takes a private copy (the text says
+      nothing about `replace`; sharing and copying both satisfy it) -/
+  sv : Array (SMap K V) := Array.replicate nVars []
   handle : Array Nat := Array.replicate nVars 0
   next : Nat := 1
   probes : List K := []
@@ -38,12 +41,15 @@ structure St where
   judgeOk : Bool := true
   notes  : List String := []
   lastRes : String := "ok"     -- model's result token for the last op
-  lastSpecRes : String := "ok" -- spec's result token for the last op
+  lastSpecRes : String := "ok" -- spec's result token for the last op (sharing reading)
+  lastSpecResV : String := "ok" -- spec's result token for the last op (copying reading)
+  pendingPop : Option Nat := none  -- variable of a `popitem` whose result (reported by `res`) the spec has yet to apply
 
 def St.m (st : St) : Nat → CIDict K V := fun i => st.ma.getD i CIDict.empty
 def St.s (st : St) : Nat → SMap K V := fun i => st.sa.getD i []
 def St.h (st : St) (r : Nat) : Nat := st.handle.getD r 0
-def tabulate {α : Type} (f : Nat → α) : Array α := (Array.range nCells).map f
+def St.v (st : St) : Nat → SMap K V := fun i => st.sv.getD i []
+def tabulateV {α : Type} (f : Nat → α) : Array α := (Array.range nVars).map f
 
 def parseV (s : String) : Option V := if s = "N" then some none else s.toInt?.map some
 def fmtV : V → String
@@ -54,6 +60,22 @@ def parsePairs (s : String) : List (K × V) :=
   (commaList s).filterMap fun t =>
     let (a, b) := splitEq t
     (parseV b).map fun v => (a, v)
+
+/-- the same line read on variables, with `replace(other)` as a copy -/
+def parseOpV (toks : List String) : Option (Op K V) :=
+  match toks with
+  | ["new", r, "dict", ps] => some (.newDict r.toNat! (parsePairs ps))
+  | ["new", r, "ci", a] => some (.newCI r.toNat! a.toNat!)
+  | ["set", r, k, v] => (parseV v).map fun v => .set r.toNat! k v
+  | ["del", r, k] => some (.del r.toNat! k)
+  | ["dell", r, lk] => some (.delLower r.toNat! lk)
+  | ["copy", r, a] => some (.copy r.toNat! a.toNat!)
+  | ["combine", r, a, b] => some (.combine r.toNat! a.toNat! b.toNat!)
+  | ["combl", r, a, ps] => some (.combineLower r.toNat! a.toNat! (parsePairs ps))
+  | ["repl", r, ps] => some (.replaceDict r.toNat! (parsePairs ps))
+  | ["replci", r, a] => some (.copy r.toNat! a.toNat!)
+  | _ => none
+def tabulate {α : Type} (f : Nat → α) : Array α := (Array.range nCells).map f
 
 def fmtPairs (l : List (K × V)) : String :=
   if l.isEmpty then "~" else ",".intercalate (l.map fun p => s!"{p.1}:{fmtV p.2}")
@@ -68,6 +90,14 @@ def fmtKeys (l : List K) : String := if l.isEmpty then "~" else ",".intercalate 
 
 def fmtObs (o : Obs K V) : String :=
   s!"len={o.len} iter={fmtKeys o.iter} get={fmtOpt o.gets} getl={fmtOpt o.getLow} in={fmtBools o.member} lower={fmtPairs o.lowered} data={fmtPairs o.data} cmap={fmtKK o.cmap}"
+
+/-- the inherited `Mapping` API, defined (as `collections.abc` defines it) through `__getitem__` and
+    `__iter__`: `get(k, default)`, `keys()`, `items()`, `values()` -/
+def mixinItems (d : CIDict K V) : List (K × V) :=
+  (CIDict.iter d).filterMap fun k => (CIDict.getitem lower d k).map fun v => (k, v)
+def fmtMixins (probes : List K) (d : CIDict K V) : String :=
+  let items := mixinItems d
+  s!"mget={fmtOpt (probes.map fun k => (k, CIDict.getitem lower d k))} keys={fmtKeys (CIDict.iter d)} items={fmtPairs items} values={if items.isEmpty then "~" else ",".intercalate (items.map fun p => fmtV p.2)}"
 
 def parseOpt (s : String) : List (K × Option V) :=
   if s = "~" then [] else (s.splitOn ",").map fun t =>
@@ -104,7 +134,25 @@ def parseObs (toks : List String) : Option (Obs K V) := do
          data := parsePairsC (← f "data")
          cmap := parseKK (← f "cmap") }
 
+/-- the `Mapping`-mixin part of an observation line, as a second observation of the same shape
+    (`get` ↦ gets, `keys` ↦ iter, `items` ↦ data) so that the same judge `obsOk` applies to it -/
+def parseMixins (o : Obs K V) (toks : List String) : Option (Obs K V × List String) := do
+  let kv := toks.map splitEq
+  let f (n : String) : Option String := (kv.find? (·.1 = n)).map (·.2)
+  let keys ← f "keys"
+  let items := parsePairsC (← f "items")
+  let values ← f "values"
+  pure ({ o with gets := parseOpt (← f "mget"), iter := if keys = "~" then [] else keys.splitOn ",", data := items },
+        if values = "~" then [] else values.splitOn ",")
+
 def note (st : St) (s : String) : St := { st with notes := st.notes ++ [s] }
+
+def runM (ma : Array (CIDict K V)) (ops : List (Op K V)) : Array (CIDict K V) :=
+  ops.foldl (fun acc op => tabulate (stepM lower (fun i => acc.getD i CIDict.empty) op)) ma
+def runS (sa : Array (SMap K V)) (ops : List (Op K V)) : Array (SMap K V) :=
+  ops.foldl (fun acc op => tabulate (stepS lower (fun i => acc.getD i []) op)) sa
+def runSV (sv : Array (SMap K V)) (ops : List (Op K V)) : Array (SMap K V) :=
+  ops.foldl (fun acc op => tabulateV (stepS lower (fun i => acc.getD i []) op)) sv
 
 /-- allocate a fresh object for variable `r` -/
 def fresh (st : St) (r : Nat) : St × Nat :=
@@ -134,35 +182,119 @@ def stepOp (st : St) (toks : List String) : St :=
   | ["probe", ks] => { st with probes := commaList ks }
   | ["eq", a, b] =>
       { st with lastRes := if CIDict.eqCI lower (st.m (st.h a.toNat!)) (st.m (st.h b.toNat!)) then "T" else "F",
-                lastSpecRes := if smapEq (st.s (st.h a.toNat!)) (st.s (st.h b.toNat!)) then "T" else "F" }
+                lastSpecRes := if smapEq (st.s (st.h a.toNat!)) (st.s (st.h b.toNat!)) then "T" else "F",
+                lastSpecResV := if smapEq (st.v a.toNat!) (st.v b.toNat!) then "T" else "F" }
   | ["eqd", a, ps] =>
       let l := PyDict.ofList (parsePairs ps)
       { st with lastRes := if CIDict.eqDict lower (st.m (st.h a.toNat!)) l then "T" else "F",
-                lastSpecRes := if smapEq (st.s (st.h a.toNat!)) (SMap.writeAll lower [] l) then "T" else "F" }
+                lastSpecRes := if smapEq (st.s (st.h a.toNat!)) (SMap.writeAll lower [] l) then "T" else "F",
+                lastSpecResV := if smapEq (st.v a.toNat!) (SMap.writeAll lower [] l) then "T" else "F" }
+  | ["ne", a, b] =>
+      { st with lastRes := if CIDict.eqCI lower (st.m (st.h a.toNat!)) (st.m (st.h b.toNat!)) then "F" else "T",
+                lastSpecRes := if smapEq (st.s (st.h a.toNat!)) (st.s (st.h b.toNat!)) then "F" else "T",
+                lastSpecResV := if smapEq (st.v a.toNat!) (st.v b.toNat!) then "F" else "T" }
+  | ["pop", r, k] =>
+      -- MutableMapping.pop: `value = self[key]` (KeyError), then `del self[key]`
+      let c := st.h r.toNat!
+      let tok (o : Option V) : String := match o with | some v => fmtV v | none => "KeyError"
+      { st with ma := if (CIDict.getitem lower (st.m c) k).isSome then runM st.ma [.del c k] else st.ma,
+                sa := runS st.sa [.del c k], sv := runSV st.sv [.del r.toNat! k],
+                lastRes := tok (CIDict.getitem lower (st.m c) k),
+                lastSpecRes := tok (SMap.lookup lower (st.s c) k), lastSpecResV := tok (SMap.lookup lower (st.v r.toNat!) k) }
+  | ["setdefault", r, k, v] =>
+      -- MutableMapping.setdefault: `try: return self[key] except KeyError: self[key] = default; return default`
+      (match parseV v with
+       | none => note { st with corrOk := false } "bad value"
+       | some v =>
+         let c := st.h r.toNat!
+         let tok (o : Option V) : String := fmtV (o.getD v)
+         let mm := CIDict.getitem lower (st.m c) k
+         let ms := SMap.lookup lower (st.s c) k
+         let mv := SMap.lookup lower (st.v r.toNat!) k
+         { st with ma := if mm.isNone then runM st.ma [.set c k v] else st.ma,
+                   sa := if ms.isNone then runS st.sa [.set c k v] else st.sa,
+                   sv := if mv.isNone then runSV st.sv [.set r.toNat! k v] else st.sv,
+                   lastRes := tok mm, lastSpecRes := tok ms, lastSpecResV := tok mv })
+  | ["update", r, ps] =>
+      -- MutableMapping.update(mapping): `for key in other: self[key] = other[key]`
+      let c := st.h r.toNat!
+      let l := PyDict.ofList (parsePairs ps)
+      { st with ma := runM st.ma (l.map fun p => .set c p.1 p.2), sa := runS st.sa (l.map fun p => .set c p.1 p.2),
+                sv := runSV st.sv (l.map fun p => .set r.toNat! p.1 p.2),
+                lastRes := "ok", lastSpecRes := "ok", lastSpecResV := "ok" }
+  | ["clear", r] =>
+      -- MutableMapping.clear: popitem until empty
+      let c := st.h r.toNat!
+      { st with ma := runM st.ma ((CIDict.iter (st.m c)).map fun k => .del c k),
+                sa := runS st.sa ((st.s c).map fun p => .delLower c p.1),
+                sv := runSV st.sv ((st.v r.toNat!).map fun p => .delLower r.toNat! p.1),
+                lastRes := "ok", lastSpecRes := "ok", lastSpecResV := "ok" }
+  | ["popitem", r] =>
+      -- MutableMapping.popitem: `key = next(iter(self))` (KeyError when empty); `value = self[key]`; `del self[key]`.
+      -- Which entry comes first is not fixed by the abstract map: the spec applies the entry the
+      -- implementation reports (checked to be a current entry) when the `res` line arrives.
+      let c := st.h r.toNat!
+      (match CIDict.iter (st.m c) with
+       | [] => { st with lastRes := "KeyError", pendingPop := some r.toNat! }
+       | k :: _ =>
+         { st with ma := runM st.ma [.del c k], pendingPop := some r.toNat!,
+                   lastRes := s!"{k}:{match CIDict.getitem lower (st.m c) k with | some v => fmtV v | none => "?"}" })
   | "res" :: [t] =>
-      let st := if t = st.lastRes then st
-                else note { st with corrOk := false } s!"res impl={t} model={st.lastRes}"
-      if t = st.lastSpecRes then st
-      else note { st with judgeOk := false } s!"res impl={t} spec={st.lastSpecRes}"
+      (match st.pendingPop with
+       | some r =>
+         let c := st.h r
+         let st := { st with pendingPop := none }
+         let st := if t = st.lastRes then st
+                   else note { st with corrOk := false } s!"res impl={t} model={st.lastRes}"
+         if t = "KeyError" then
+           if (st.s c).isEmpty || (st.v r).isEmpty then st
+           else note { st with judgeOk := false } "popitem raised KeyError on a non-empty map"
+         else
+           (match t.splitOn ":" with
+            | [k, v] =>
+              (match parseV v with
+               | some v =>
+                 let okS := get? (st.s c) (lower k) == some (k, v)
+                 let okV := get? (st.v r) (lower k) == some (k, v)
+                 let st := { st with sa := runS st.sa [.del c k], sv := runSV st.sv [.del r k] }
+                 if okS || okV then st
+                 else note { st with judgeOk := false } s!"popitem returned {t}, not a current entry"
+               | none => note { st with judgeOk := false } s!"popitem result {t}")
+            | _ => note { st with judgeOk := false } s!"popitem result {t}")
+       | none =>
+         let st := if t = st.lastRes then st
+                   else note { st with corrOk := false } s!"res impl={t} model={st.lastRes}"
+         if t = st.lastSpecRes || t = st.lastSpecResV then st
+         else note { st with judgeOk := false } s!"res impl={t} spec={st.lastSpecRes}|{st.lastSpecResV}")
   | "obs" :: r :: rest =>
       let d := st.m (st.h r.toNat!)
       let sm := st.s (st.h r.toNat!)
-      let mo := fmtObs (observe lower st.probes d)
+      let mo := fmtObs (observe lower st.probes d) ++ " " ++ fmtMixins st.probes d
       let io := " ".intercalate rest
       let st := if mo = io then st
                 else note { st with corrOk := false } s!"obs r{r} impl[{io}] model[{mo}]"
       (match parseObs rest with
-       | some o => if obsOk lower sm o then st
+       | some o =>
+           let okFor (m : SMap K V) : Bool :=
+             obsOk lower m o &&
+             (match parseMixins o rest with
+              | some (o2, values) => obsOk lower m o2 && o2.iter == o.iter && values == o2.data.map (fun p => fmtV p.2)
+              | none => false)
+           if okFor sm || okFor (st.v r.toNat!) then st
                    else note { st with judgeOk := false } s!"judge r{r} impl[{io}] spec[{fmtKK (sm.map fun p => (p.1, p.2.1))}|{fmtPairs (sm.map fun p => (p.1, p.2.2))}]"
        | none => note { st with judgeOk := false } s!"unparsable obs r{r}")
   | _ =>
+    -- the copying reading, on variables
+    let (sv', resV) := match parseOpV toks with
+      | some opv => (tabulateV (stepS lower st.v opv), if raisesS lower st.v opv then "KeyError" else "ok")
+      | none => (st.sv, "ok")
     match parseOp st toks with
     | some (st', some op) =>
         if st'.next > nCells then note { st with corrOk := false } "too many objects in one case" else
-        { st' with ma := tabulate (stepM lower st.m op), sa := tabulate (stepS lower st.s op),
+        { st' with ma := tabulate (stepM lower st.m op), sa := tabulate (stepS lower st.s op), sv := sv',
                    lastRes := if raisesM lower st.m op then "KeyError" else "ok",
-                   lastSpecRes := if raisesS lower st.s op then "KeyError" else "ok" }
-    | some (st', none) => { st' with lastRes := "ok", lastSpecRes := "ok" }
+                   lastSpecRes := if raisesS lower st.s op then "KeyError" else "ok", lastSpecResV := resV }
+    | some (st', none) => { st' with sv := sv', lastRes := "ok", lastSpecRes := "ok", lastSpecResV := "ok" }
     | none => note { st with corrOk := false } s!"bad-op {" ".intercalate toks}"
 
 def main : IO UInt32 := do
